@@ -75,7 +75,9 @@ def expected(st):
 
 
 def days(tm, now):
+    """ages in days of the oldest / median / newest recorded time (the not-yet-scrubbed mark in the lowest bit is not a time)"""
     def ago(t):
+        t &= ~1
         return 0 if now < t else (now - t) // 86400
     if not tm:
         return None
